@@ -46,8 +46,37 @@ theorem volume_weight_matrix_bridge (cells : List Face) (volume : Attr Rat) (u :
   simp only [forEnum, mass]
   rw [mass_outer]; simp
 
-/-- the elementwise tail of both functions: the optional square root and inverse (in either order: `√(1/x) = 1/√x`), then `sp.diags` -/
-theorem mass_tail_order : ∀ p ∈ C08Src.massTails, p.2 = ["sqrt", "inverse", "diags"] ∨ p.2 = ["inverse", "sqrt", "diags"] := by decide
+/-- the elementwise tail of every mass function: the optional square root and inverse (in either order: `√(1/x) = 1/√x`), then
+`sp.diags`; nothing else is done to the assembled values -/
+theorem mass_tail_order : ∀ p ∈ C08Src.massTails,
+    p.2 = ["sqrt", "inverse", "diags"] ∨ p.2 = ["inverse", "sqrt", "diags"] ∨ p.2 = ["inverse", "diags"] := by decide
+
+/-- `area_weight_matrix_faces`: the diagonal is the face-area attribute read as an array of `len(mesh.faces)` values: the model's `diagMass` -/
+theorem area_weight_matrix_faces_bridge (faces : List Face) (area : Attr Rat) :
+    (C08Src.area_weight_matrix_faces faces area).mapIdx (fun t a => ((t, t, a) : Trip)) = diagMass area faces.length := by
+  simp only [C08Src.area_weight_matrix_faces, tab, diagMass]
+  apply List.ext_getElem <;> simp
+
+/-- `volume_weight_matrix_cells`: same on the cells -/
+theorem volume_weight_matrix_cells_bridge (cells : List Face) (volume : Attr Rat) :
+    (C08Src.volume_weight_matrix_cells cells volume).mapIdx (fun t a => ((t, t, a) : Trip)) = diagMass volume cells.length := by
+  simp only [C08Src.volume_weight_matrix_cells, tab, diagMass]
+  apply List.ext_getElem <;> simp
+
+/-- `area_weight_matrix_edges`: edge `e` accumulates `area[T]/3` for each of its (at most two) faces `edge_to_faces(A,B)`, skipping `None`:
+the diagonal entry of the model's `massEdges` -/
+theorem area_weight_matrix_edges_at (faces : List Face) (edges : List (Nat × Nat)) (area : Attr Rat) (e : Nat) (he : e < edges.length) :
+    C08Src.area_weight_matrix_edges faces edges area e = rsum ((edgeFaceList faces edges[e]).map (fun t => area t / 3)) := by
+  unfold C08Src.area_weight_matrix_edges
+  simp only []
+  rw [forEnum_local_get _ _ _ _ e he]
+  · simp only [forEach, List.foldl_cons, List.foldl_nil, edgeFaceList, edgeFaces]
+    cases h1 : directFace faces edges[e].1 edges[e].2 <;> cases h2 : directFace faces edges[e].2 edges[e].1 <;>
+      simp [upd, rsum] <;> ring
+  · intro a i x
+    funext k
+    simp only [forEach, List.foldl_cons, List.foldl_nil]
+    split_ifs <;> simp_all [upd]
 
 example : C08Src.area_weight_matrix [[0, 1, 2], [1, 0, 3]] (fun t => if t = 0 then 2 else 3) 1 = 5 := by decide +kernel
 
